@@ -30,7 +30,9 @@ type Ctx struct {
 	P    *load.Program
 	R    *ob.Run
 	X    *an.Extractor // inlines module-local callees (depth 4)
-	XO   *an.Extractor // keeps every call opaque
+	XO   *an.Extractor // keeps anchored functions opaque, looks through helpers
+
+	callers map[*ssa.Function][]*ssa.Function
 	Tier string
 }
 
